@@ -47,7 +47,12 @@ RULE = ("pure states: every pair of local dimensions in {2,3,4}^2 x every Schmid
         "indefinite Hermitian operators, the zero operator, effort = 0 / 1 / 2; per operator the exact dyadic image of the float matrix is the instance, an upper certificate "
         "(dual point of the PPT relaxation for k = 1, of the reduction-map relaxation for k >= 2, from an independent CLARABEL solve, rounded and repaired) and a lower certificate "
         "(explicit vector with k product terms, second factors exactly orthogonal) are judged by the Lean checkers; demanded: lower bound <= UB + tol, upper bound >= LB - tol; "
-        "non-trivial = UB - LB <= 1e-3*scale.  is_block_positive(rho^T_B +- 0.15*1, 1) against the certified bracket of sup <v|(c - W)|v>.  "
+        "non-trivial = UB - LB <= 1e-3*scale.  Second level for k = 1 (2x4, 4x2, 3x3: the first sizes where the PPT relaxation is not exact): operators whose PPT optimum sits at a "
+        "PPT-entangled state -- lmax(W)*1 - W with W = al*P + (1-al)*Q^{T_B} built from the kernel projectors of Horodecki's 2x4 edge state rho_b and of its partial transpose "
+        "(b in {3/20, 1/5, 1/4}, al in {2/5, 1/2, 3/5}; as given, rotated by Haar local unitaries, and with the parties exchanged to 4x2; PPT optimum exceeds the product-vector "
+        "maximum by 3e-3 .. 4e-3 of the norm) and the projector onto the complement of the Tiles unextendible product basis on 3x3 (gap 2.8e-2), also rotated / scaled; there, and on "
+        "every k = 1 instance of those sizes whose PPT-level bracket is wider than 1e-3, UB is the smaller of the PPT bound and the verified two-copy bound (dual point of the "
+        "Bose-symmetric two-copy extension program with one partial transpose, C14.checkSkUpperDps_sound); non-trivial there = UB - LB <= 1e-3*scale AND PPT-level bound - UB >= 2.5*tol.  is_block_positive(rho^T_B +- 0.15*1, 1) against the certified bracket of sup <v|(c - W)|v>.  "
         "Weakly entangled states: planted Schmidt vectors with one or two coefficients of relative size 1e-8, 1e-9, 1e-10, 1e-12 (exact rationals, exact Cayley local unitaries or none; "
         "all dim forms; schmidt_rank, is_product, schmidt_decomposition, sk_vector_norm) and product + 2^-s * second product with s in {27, 30, 33, 37} (vectors) / {27, 30, 33} (operators), "
         "kept only if exactly representable and the second singular value is >= 100x the largest cut-off (N * 2.3e-16) of any routine.  "
@@ -61,7 +66,7 @@ ASSUMPTIONS = [
     "S(k) operator norm and block positivity: tolerance 1e-3*max(1, operator norm) because cvxpy solves these Hermitian SDPs with SCS (observed deviations from closed forms up to 3e-5). "
     "The certified bracket [LB, UB] is exact (Lean checkers over Q[i]) for the exact dyadic image of the float operator; the candidates (CLARABEL dual solve, alternating maximisation) are untrusted. "
     "UB is the optimum of the PPT (k = 1) / reduction-map (k >= 2) relaxation up to 1e-6, so on operators where the relaxation has a gap (e.g. rank-3 completely entangled projection on 3x3: 0.8014 vs 0.7941) "
-    "the lower side is certified only up to that gap (counted as sk_cert/uncertified-wide).  For indefinite Hermitian operators the routine brackets sup |<w|X|v>| over two vectors, of which only the attained "
+    "the lower side is certified only up to that gap (counted as sk_cert/uncertified-wide); for k = 1 and dA*dB*dB <= 36 the verified two-copy bound closes that gap (to 1e-6 on the instances generated).  For indefinite Hermitian operators the routine brackets sup |<w|X|v>| over two vectors, of which only the attained "
     "values |<v|X|v>| are certified (one-sided)",
     "weakly entangled states: the clean cut-offs are eps*max(dim)*s_max (matrix_rank, schmidt_decomposition) and eps*prod(dim)*s_max (is_product), i.e. <= 3.6e-15 relative for the sizes generated; planted small coefficients are >= 1e-12 relative "
     "(>= 280 x cut-off); rounding the exact rotated vector to float64 moves singular values by <= 1.2e-16*s_max; operator Schmidt ranks of |psi><psi| are not requested for these states (coefficients s_i*s_j would fall below the cut-off)",
@@ -1141,6 +1146,30 @@ def make_skcert_case(rng, dA, dB, k, variant, r=None, rot=False, c="1", s=None):
             "seed": int(rng.integers(1 << 30))}
 
 
+def make_edge_case(rng, dA, dB, b, al, rot=False, c="1"):
+    case = make_skcert_case(rng, dA, dB, 1, "edge", rot=rot, c=c)
+    case.update({"b": b, "al": al})
+    return case
+
+
+def horodecki_2x4(b):
+    """Horodecki's one-parameter family of PPT-entangled states on 2 x 4 (0 < b < 1), flat index a*4 + b"""
+    R = np.zeros((8, 8))
+    for i in range(8):
+        R[i, i] = b
+    for i, j in ((0, 5), (1, 6), (2, 7)):
+        R[i, j] = R[j, i] = b
+    R[4, 4] = R[7, 7] = (1 + b) / 2
+    R[4, 7] = R[7, 4] = np.sqrt(1 - b * b) / 2
+    return (R / (7 * b + 1)).astype(complex)
+
+
+def kernel_projector(M):
+    w, v = np.linalg.eigh((M + M.conj().T) / 2)
+    ker = v[:, w < 1e-9]
+    return ker @ ker.conj().T
+
+
 def build_sk_operator(case):
     """the float operator handed to toqito (a function of the case alone), and the closed-form value where there is one"""
     rng = np.random.default_rng(case["seed"])
@@ -1189,6 +1218,37 @@ def build_sk_operator(case):
         psi = (_haar(rng, dA) @ A @ _haar(rng, dB).T).reshape(-1)
         rho = np.outer(psi, psi.conj())
         X = skc.pt_b(rho, dA, dB) + float(Fraction(case["shift"])) * np.eye(N)
+    elif variant == "edge":
+        # PPT-entangled edge state of 2 x 4 (Horodecki's family, parameter b): P / Q project onto the kernels of rho_b / of its partial transpose;
+        # W = al*P + (1-al)*Q^{T_B} has <ab|W|ab> >= eps > 0 on product vectors (an edge state has no product vector |a,b> in its range with |a,conj b> in the
+        # range of the partial transpose) but tr(W rho_b) = 0, so for X = lmax(W)*1 - W the PPT relaxation (optimum lmax(W), attained at rho_b) is NOT tight
+        b, al = float(Fraction(case["b"])), float(Fraction(case["al"]))
+        rho = horodecki_2x4(b)
+        Pk, Qk = kernel_projector(rho), kernel_projector(skc.pt_b(rho, 2, 4))
+        W = al * Pk + (1 - al) * skc.pt_b(Qk, 2, 4)
+        W = (W + W.conj().T) / 2
+        X = float(np.max(np.linalg.eigvalsh(W))) * np.eye(8) - W
+        X = X / np.linalg.norm(X, 2)
+        if case["rot"]:
+            U = np.kron(_haar(rng, 2), _haar(rng, 4))
+            X = U @ X @ U.conj().T
+        if (dA, dB) == (4, 2):
+            X = X.reshape(2, 4, 2, 4).transpose(1, 0, 3, 2).reshape(8, 8)
+        elif (dA, dB) != (2, 4):
+            raise ValueError("edge: 2x4 or 4x2")
+    elif variant == "upb":
+        # projector onto the orthogonal complement of the Tiles unextendible product basis of 3 x 3: X/4 is a PPT-entangled state, the PPT relaxation has
+        # optimum 1 = ||X|| while product vectors reach only 1 - 0.0284
+        e = np.eye(3)
+        s2 = np.sqrt(2.0)
+        us = [np.kron(e[0], (e[0] - e[1]) / s2), np.kron(e[2], (e[1] - e[2]) / s2), np.kron((e[0] - e[1]) / s2, e[2]),
+              np.kron((e[1] - e[2]) / s2, e[0]), np.kron(e.sum(0) / np.sqrt(3.0), e.sum(0) / np.sqrt(3.0))]
+        X = (np.eye(9) - sum(np.outer(u, u) for u in us)).astype(complex)
+        if case["rot"]:
+            U = np.kron(_haar(rng, 3), _haar(rng, 3))
+            X = U @ X @ U.conj().T
+        if (dA, dB) != (3, 3):
+            raise ValueError("upb: 3x3")
     else:
         raise ValueError(variant)
     X = float(Fraction(case["c"])) * X
@@ -1198,10 +1258,17 @@ def build_sk_operator(case):
     return X, truth, hints
 
 
-def _sk_certify(lean, X, dA, dB, k, rng, want_upper=True, hints=()):
-    """certified (LB, UB) as Fractions (None where the candidate was rejected / could not be built) and the rejection reasons"""
+DPS_MAX = 36      # the two-copy certificate is built when dA*dB*dB <= DPS_MAX (2x4, 4x2, 3x3 and smaller)
+
+
+def _sk_certify(lean, X, dA, dB, k, rng, want_upper=True, hints=(), level2="auto", levels=None):
+    """certified (LB, UB) as Fractions (None where the candidate was rejected / could not be built) and the rejection reasons.
+    k = 1: when the PPT-level bracket is wider than WIDTH_OK (the relaxation is not tight: possible from 2x4 / 3x3 on) or `level2` is True, the two-copy
+    certificate (C14.checkSkUpperDps_sound) is built as well and the smaller verified bound is used; `levels` receives both bounds."""
     why = []
     UB = LB = None
+    if levels is None:
+        levels = {}
     if want_upper:
         up = skc.upper_certificate(X, dA, dB, k, ppt=(k == 1))
         if up is None:
@@ -1218,6 +1285,21 @@ def _sk_certify(lean, X, dA, dB, k, rng, want_upper=True, hints=()):
         LB = skc.frac_of(ans)
     else:
         why.append(f"lower: {ans.get('reject')}")
+    levels["ppt"] = UB
+    if want_upper and k == 1 and dA * dB * dB <= DPS_MAX and level2:
+        scale = max(1.0, float(np.linalg.norm(X, 2)))
+        wide = UB is None or LB is None or float(UB - LB) > WIDTH_OK * scale
+        if level2 is True or wide:
+            up = skc.upper_certificate_dps(X, dA, dB)
+            if up is None:
+                why.append("upper2: no candidate")
+            else:
+                ans = lean.ask("c14_sk_upper_dps", up[0])
+                if "ok" in ans:
+                    levels["dps"] = skc.frac_of(ans)
+                    UB = levels["dps"] if UB is None else min(UB, levels["dps"])
+                else:
+                    why.append(f"upper2: {ans.get('reject')}")
     return LB, UB, why
 
 
@@ -1225,8 +1307,8 @@ def check_skcert(ctx, case):
     dA, dB, k, variant = case["dA"], case["dB"], case["k"], case["variant"]
     N = dA * dB
     lean = ctx.lean()
-    t = Tally(ctx, "skcert", case, "C14.checkSkUpperPPT_sound / checkSkUpperRed_sound (every unit vector of Schmidt rank <= k has <v|X|v> <= UB) / "
-              "checkSkLower_sound (LB is attained by such a vector) / sk_lower_le_upper / schmidtLE_iff_rank_le")
+    t = Tally(ctx, "skcert", case, "C14.checkSkUpperPPT_sound / checkSkUpperRed_sound / checkSkUpperDps_sound (every unit vector of Schmidt rank <= k has <v|X|v> <= UB) / "
+              "checkSkLower_sound (LB is attained by such a vector) / sk_lower_le_upper / sk_lower_le_upper_dps / schmidtLE_iff_rank_le")
     X, truth, hints = build_sk_operator(case)
     rng = np.random.default_rng(case["seed"] + 1)
     scale = float(np.linalg.norm(X, 2))
@@ -1234,6 +1316,9 @@ def check_skcert(ctx, case):
     psd = float(np.min(np.linalg.eigvalsh(X))) >= -1e-12 * max(1.0, scale)
     desc = {"fn": "sk_operator_norm", "cert": True, "dA": dA, "dB": dB, "k": k, "variant": variant, "r": case["r"], "rot": case["rot"], "c": case["c"],
             "shift": case["shift"], "seed": case["seed"]}
+    if variant == "edge":
+        desc.update({"b": case["b"], "al": case["al"]})
+    levels = {}
     if variant == "witness":
         return _check_block_positive(ctx, t, lean, case, X, rng, desc)
     if variant == "zero":
@@ -1243,7 +1328,7 @@ def check_skcert(ctx, case):
             t.fail(f"sk_operator_norm of the zero operator = {res[1]!r}: every attained value is 0", function="sk_operator_norm", impl=repr(res[1]), expected=[0.0, 0.0])
         return
     if psd:
-        LB, UB, why = _sk_certify(lean, X, dA, dB, k, rng, hints=hints)
+        LB, UB, why = _sk_certify(lean, X, dA, dB, k, rng, hints=hints, level2=True if variant in ("edge", "upb") else "auto", levels=levels)
     else:
         # indefinite Hermitian: the routine brackets sup |<w|X|v>| >= |<v|X|v>|; only the attained values are certified (one-sided)
         LBp, _, why = _sk_certify(lean, X, dA, dB, k, rng, want_upper=False)
@@ -1263,9 +1348,18 @@ def check_skcert(ctx, case):
     tight = LB is not None and UB is not None and float(UB - LB) <= WIDTH_OK * max(1.0, scale)
     if psd:
         ctx.count("sk_cert/certified-tight" if tight else "sk_cert/uncertified-wide")
+    if levels.get("dps") is not None:
+        ctx.count("sk_cert/two-copy-level-used")
+    # instances on which the first (PPT) level is certified NOT to be exact: a lower bound of toqito taken from that level would exceed UB by more than the tolerance
+    ppt_gap = levels.get("dps") is not None and levels.get("ppt") is not None and float(levels["ppt"] - levels["dps"]) >= 2.5 * tol
+    if variant in ("edge", "upb"):
+        ctx.count("sk_cert/ppt-level-not-tight" if (tight and ppt_gap) else "sk_cert/ppt-gap-uncertified")
+        tight = tight and ppt_gap
     forms = [("list", [dA, dB], None)] + ([("scalar", dA, None)] if case["seed"] % 3 == 0 else []) + ([("omitted", None, None)] if dA == dB and case["seed"] % 3 == 1 else [])
     if psd and variant in ("psd", "ces", "cesrand") and case["seed"] % 2 == 0 and k < min(dA, dB):
         forms += [("list/effort=0", [dA, dB], 0), ("list/effort=1", [dA, dB], 1)]     # no SDP / first SDP only: the analytic and randomised bounds alone must bracket too
+    label = f"b={case['b']}, al={case['al']}, rot={case['rot']}, c={case['c']}, seed {case['seed']}" if variant == "edge" else \
+        (f"rot={case['rot']}, c={case['c']}, seed {case['seed']}" if variant == "upb" else f"rank {case['r']}")
     for dform, dim, effort in forms:
         ctx.case(dict(desc, dim=dform), bool(tight) or not psd, f"sk_cert/{dA}x{dB}/k={k}/{variant}/dim={dform}")
         if effort is not None:
@@ -1284,16 +1378,18 @@ def check_skcert(ctx, case):
             t.fail(f"sk_operator_norm returned {res[1]!r}, not a pair of bounds", function="sk_operator_norm", dim_form=dform, impl=repr(res[1]))
             continue
         info = {"function": "sk_operator_norm", "dim_form": dform, "impl": [lo, hi], "certified": [LB is not None and float(LB), UB is not None and float(UB)]}
+        if levels.get("dps") is not None:
+            info["certified_upper_by_level"] = {"ppt": levels.get("ppt") is not None and float(levels["ppt"]), "two_copy": float(levels["dps"])}
         if lo > hi + tol:
             t.fail(f"sk_operator_norm: lower bound {lo!r} exceeds upper bound {hi!r} ({dA}x{dB}, k={k}, {variant}, {dform})", **info)
         if hi > scale + tol:
             t.fail(f"sk_operator_norm: upper bound {hi!r} exceeds the operator norm {scale!r}", **info)
         if LB is not None and hi < float(LB) - tol:
             t.fail(f"sk_operator_norm: upper bound {hi!r} is below the value {float(LB)!r} attained by an explicit (verified) vector of Schmidt rank <= {k} "
-                   f"({dA}x{dB}, {variant}, rank {case['r']}, {dform})", **info)
+                   f"({dA}x{dB}, {variant}, {label}, {dform})", **info)
         if psd and UB is not None and lo > float(UB) + tol:
             t.fail(f"sk_operator_norm: lower bound {lo!r} exceeds the certified upper bound {float(UB)!r} on every value attained by vectors of Schmidt rank <= {k} "
-                   f"({dA}x{dB}, {variant}, rank {case['r']}, {dform})", **info)
+                   f"({dA}x{dB}, {variant}, {label}, {dform})", **info)
         if not psd and lo > scale + tol:
             t.fail(f"sk_operator_norm: lower bound {lo!r} exceeds the operator norm {scale!r} (indefinite Hermitian input)", **info)
         if k >= min(dA, dB) and not (close(lo, scale, 1e-9) and close(hi, scale, 1e-9)):
@@ -1470,6 +1566,12 @@ def corpus_cases():
     out.append({"kind": "product", "dims": [2, 3], "operator": True, "entangle": None, "shift": 0,
                 "f1": [split(np.array([[1, 2], [3, 4]])), split(np.arange(9).reshape(3, 3) + np.eye(3))],
                 "f2": [split(np.eye(2)), split(np.eye(3))]})
+    # S(1) norm beyond the sizes where the PPT relaxation is exact (seeded change c14w4_2: `is_trans_exact` widened to every 2 x n): operators whose PPT optimum sits at a
+    # PPT-entangled state of 2x4 / 4x2 / 3x3; the lower bound must stay below the verified two-copy bound
+    fixed = np.random.default_rng(1420)
+    out.append(make_edge_case(fixed, 2, 4, "1/5", "1/2"))
+    out.append(make_edge_case(fixed, 4, 2, "1/5", "1/2"))
+    out.append(make_skcert_case(fixed, 3, 3, 1, "upb"))
     return out
 
 
@@ -1579,6 +1681,11 @@ def _round(rng, thorough):
     for (dA, dB) in [(2, 2), (2, 3), (3, 3)] + ([(3, 2), (2, 4)] if thorough else []):
         for sh in ("3/20", "-3/20"):
             tasks.append(make_skcert_case(rng, dA, dB, 1, "witness", s=sh))
+    # ---- k = 1 where the PPT relaxation is not exact (drawn last: the stream above is as before)
+    edge_b, edge_al = ["3/20", "1/5", "1/4"], ["2/5", "1/2", "3/5"]
+    for (dA, dB) in [(2, 4), (4, 2)] * (2 if thorough else 1):
+        tasks.append(make_edge_case(rng, dA, dB, edge_b[int(rng.integers(3))], edge_al[int(rng.integers(3))], rot=True, c=["1", "9/4"][int(rng.integers(2))]))
+    tasks.append(make_skcert_case(rng, 3, 3, 1, "upb", rot=True, c=["1", "5/2", "3/10"][int(rng.integers(3))]))
     return tasks
 
 
@@ -1593,8 +1700,8 @@ def run(ctx, model_ok=True):
     run_pool(ctx, pooled_work, [case for case in tasks if case["kind"] in POOLED])
     ctx.extra["tolerances"] = {"TOL": TOL, "TOL_DEC": TOL_DEC, "TOL_INV": TOL_INV, "TOL_SQRT": TOL_SQRT, "TOL_SDP": TOL_SDP, "WIDTH_OK": WIDTH_OK}
     ctx.extra["partial_clauses"] = [
-        "S(k) operator norm: two-sided certified bracket for positive semidefinite operators (lower bound of toqito <= verified upper bound UB of the PPT (k = 1) / "
-        "reduction-map (any k) relaxation, upper bound of toqito >= value LB of a verified vector of Schmidt rank <= k); where the relaxation is not tight (UB - LB > 1e-3, "
+        "S(k) operator norm: two-sided certified bracket for positive semidefinite operators (lower bound of toqito <= verified upper bound UB of the PPT (k = 1; with the two-copy "
+        "level where the PPT level is not tight and dA*dB*dB <= 36) / reduction-map (any k) relaxation, upper bound of toqito >= value LB of a verified vector of Schmidt rank <= k); where the relaxation is not tight (UB - LB > 1e-3, "
         "counted as sk_cert/uncertified-wide) the lower side is certified only up to the relaxation gap; indefinite Hermitian operators: attained values only (one-sided)",
         "trace norm of the partial transpose: proved as the trace of the positive square root (C14.negativity_planted, C14.traceNorm_pT_pure); the identification with numpy's nuclear norm (sum of singular values) is the standard fact ||X||_1 = tr sqrt(X^H X)",
     ]
